@@ -408,6 +408,25 @@ def methodParamsOk : PV → Except Err Unit
   | .dict d => if d.all (fun e => e.1 == "compress" || e.1 == "rng") then .ok () else .error .type
   | _ => .error .type
 
+/-- loop body of the direct method:
+    `decoder = _parse_decoder_dict(...)`, then `DirectSimulation(..., **method_params)` -/
+def buildSim (mparams : PV) (t : Inst × Inst × Block × PV) : Except Err SimT :=
+  match instDecoder t.2.2.1 with
+  | .error e => .error e
+  | .ok dec =>
+    match methodParamsOk mparams with
+    | .error e => .error e
+    | .ok () => .ok ⟨t.1, t.2.1, dec, t.2.2.2⟩
+
+/-- `data['ranges']['method']['name']`, `['parameters']` (default: direct, `{}`) -/
+def methodOf (r : Ranges) : Except Err (String × PV) :=
+  match r.method with
+  | none => .ok ("direct", .dict [])
+  | some m =>
+    match m.name, m.params with
+    | some n, some p => .ok (n, p)
+    | _, _ => .error .key
+
 /-- the `'ranges' in data` branch of `get_simulations` for one `ranges` dictionary -/
 def simsOfRanges (r : Ranges) : Except Err (List SimT) :=
   match parseAllRanges r with
@@ -419,53 +438,52 @@ def simsOfRanges (r : Ranges) : Except Err (List SimT) :=
     match mapE instNoise nr with
     | .error e => .error e
     | .ok noises =>
-      let meth : Except Err (String × PV) :=
-        match r.method with
-        | none => .ok ("direct", .dict [])
-        | some m =>
-          match m.name, m.params with
-          | some n, some p => .ok (n, p)
-          | _, _ => .error .key
-      match meth with
+      match methodOf r with
       | .error e => .error e
       | .ok (method, mparams) =>
         let instances := product4 codes noises dr er
-        if method == "direct" then
-          mapE (fun (t : Inst × Inst × Block × PV) =>
-            match instDecoder t.2.2.1 with
-            | .error e => .error e
-            | .ok dec =>
-              match methodParamsOk mparams with
-              | .error e => .error e
-              | .ok () => .ok ⟨t.1, t.2.1, dec, t.2.2.2⟩) instances
+        if method == "direct" then mapE (buildSim mparams) instances
         else if method == "splitting" then
           -- `for code, error_model, decoder_dict in instances` on 4-tuples
           if instances.isEmpty then .ok [] else .error .value
         else .ok []
 
-/-- the `'runs' in data` branch: all codes first, then all error models, then one decoder per
-    run -/
+def Run.getCode (r : Run) : Except Err Inst :=
+  match r.code with
+  | none => .error .key
+  | some b => instCode b
+
+def Run.getDecoder (r : Run) : Except Err Block :=
+  match r.decoder with
+  | none => .error .key
+  | some b => .ok b
+
+def Run.getNoise (r : Run) : Except Err Inst :=
+  match r.noise with
+  | none => .error .key
+  | some b => instNoise b
+
+def Run.getRate (r : Run) : Except Err PV :=
+  match r.errorRate with
+  | none => .error .key
+  | some p => .ok p
+
+/-- the `'runs' in data` branch: all codes first, then the decoder blocks, all error models,
+    the error rates, then one decoder per run (`zip`) -/
 def simsOfRuns (runs : List Run) : Except Err (List SimT) :=
-  match mapE (fun (r : Run) => match r.code with
-      | none => .error .key | some b => instCode b) runs with
+  match mapE Run.getCode runs with
   | .error e => .error e
   | .ok codes =>
-  match mapE (fun (r : Run) => match r.decoder with
-      | none => .error .key | some b => .ok b) runs with
+  match mapE Run.getDecoder runs with
   | .error e => .error e
   | .ok decs =>
-  match mapE (fun (r : Run) => match r.noise with
-      | none => .error .key | some b => instNoise b) runs with
+  match mapE Run.getNoise runs with
   | .error e => .error e
   | .ok noises =>
-  match mapE (fun (r : Run) => match r.errorRate with
-      | none => .error .key | some p => .ok p) runs with
+  match mapE Run.getRate runs with
   | .error e => .error e
   | .ok rates =>
-    mapE (fun (t : Inst × Inst × Block × PV) =>
-      match instDecoder t.2.2.1 with
-      | .error e => .error e
-      | .ok dec => .ok ⟨t.1, t.2.1, dec, t.2.2.2⟩)
+    mapE (buildSim (.dict []))
       (List.zipWith (fun c (x : Inst × Block × PV) => (c, x)) codes
         (List.zipWith (fun n (x : Block × PV) => (n, x)) noises (decs.zip rates)))
 
